@@ -53,6 +53,7 @@ def run(model, rep, tier):
     r3_feature_order(ctx, rep)
     r4_seed_propagation(ctx, rep)
     r5_seed_reported(ctx, rep)
+    r7_mode_independent(ctx, rep)
     rep.units['cfg'] = ctx.cfg_stats
 
 
@@ -505,3 +506,95 @@ def _int_typed(ctx, fi, e):
     if isinstance(e, ast.UnaryOp) and isinstance(e.op, (ast.USub, ast.UAdd, ast.Invert)):
         return _int_typed(ctx, fi, e.operand)
     return None
+
+
+# ---------------------------------------------------------------------------------------------
+# R7 -- the shuffle does not depend on the execution mode
+
+def r7_mode_independent(ctx, rep, R='C11.R7'):
+    rep.rule(R, 'mode independence: the listing, the parent of a -j run and every child all call the '
+             'same Shuffle hook and must get the same order from the same seed, so inside the hook '
+             '(a) every path from the entry to a normal return passes the loop over the layers '
+             '(no early return), and (b) no branch that reads an option other than the shuffle '
+             'options themselves decides whether a layer is shuffled, a random number is drawn or '
+             'the loop is left (any such branch makes the order a function of -j / --resume-layer / '
+             '--list-tests / --layer)')
+    fi = shuffle_fn(ctx)
+    g = ctx.cfg(fi)
+    heads = [n for n in g.nodes if n.kind == 'for' and 'tests_by_layer_name' in norm(n.stmt.iter)]
+    if not heads:
+        # the iterable may be held in a local
+        for n in g.nodes:
+            if n.kind == 'for' and any(isinstance(x, ast.Subscript) and isinstance(x.ctx, ast.Store) and
+                                       'tests_by_layer_name' in norm(x.value) for x in ast.walk(n.stmt)):
+                heads.append(n)
+    outer = [h for h in heads if not any(h.stmt is not o.stmt and any(x is h.stmt for x in ast.walk(o.stmt))
+                                         for o in heads)]
+    if len(outer) != 1:
+        rep.assume('C11.R7 not applied: no single loop over the layers in %s' % fi.qualname)
+        return
+    h = outer[0]
+    def edge_ok(s_, d_, k_):
+        if k_ == 'exc':
+            return False
+        sn = g.node(s_)
+        if sn.kind == 'test':
+            # a branch taken only when there is nothing to shuffle may skip the loop
+            from sa.variance import split_literals
+            for lit, pos in split_literals(sn.ast, k_ == 'true'):
+                if not pos and 'tests_by_layer_name' in norm(lit) and \
+                        isinstance(lit, (ast.Attribute, ast.Name)):
+                    return False
+        return True
+    okp, w = g.every_path_passes([g.entry], [g.exit], {h.id}, include_start=True, edge_ok=edge_ok)
+    rep.check(okp, R, '%s: every normal path passes the loop over the layers' % fi.qualname,
+              'a path returns from %s without shuffling any layer: in the mode that takes it the '
+              'order is the discovery order, not the one the seed determines' % fi.qualname,
+              key='always-shuffles', func=fi.qualname, where=ctx.where(fi, fi.node),
+              path=g.describe_path(w) if (not okp and w and hasattr(g, 'describe_path') and
+                                          isinstance(w, (list, tuple))) else None)
+
+    def reads_mode_option(e):
+        for x in ast.walk(e):
+            if isinstance(x, ast.Attribute) and isinstance(x.ctx, ast.Load):
+                d = dotted(x) or ''
+                parts = d.split('.')
+                if 'options' in parts[:-1] and parts[-1] not in ('shuffle', 'shuffle_seed'):
+                    return d
+        return None
+
+    def alters_shuffle(stmts):
+        for st in stmts:
+            for x in ast.walk(st):
+                if isinstance(x, (ast.Return, ast.Continue, ast.Break)):
+                    return True
+                if isinstance(x, ast.Call) and isinstance(x.func, ast.Attribute) and \
+                        x.func.attr in ('random', 'seed'):
+                    return True
+                if isinstance(x, ast.Subscript) and isinstance(x.ctx, ast.Store):
+                    return True
+        return False
+    # locals that hold option values
+    opt_locals = {}
+    for n in ast.walk(fi.node):
+        if isinstance(n, ast.Assign) and len(n.targets) == 1 and isinstance(n.targets[0], ast.Name):
+            d = reads_mode_option(n.value)
+            if d and not any(isinstance(x, ast.Call) for x in ast.walk(n.value)):
+                opt_locals[n.targets[0].id] = d
+    nb = 0
+    for n in ast.walk(fi.node):
+        if isinstance(n, (ast.If, ast.While)):
+            d = reads_mode_option(n.test)
+            if d is None:
+                for x in ast.walk(n.test):
+                    if isinstance(x, ast.Name) and x.id in opt_locals:
+                        d = opt_locals[x.id]
+            if d is None:
+                continue
+            nb += 1
+            bad = alters_shuffle(n.body) or alters_shuffle(n.orelse)
+            rep.check(not bad, R, 'branch on %s does not touch the shuffle' % d,
+                      'whether a layer is shuffled / a random number is drawn depends on %s (%s)'
+                      % (d, norm(n.test)), key='mode-branch:' + d, func=fi.qualname,
+                      where=ctx.where(fi, n))
+    rep.ok(R, '%d option-dependent branches in %s' % (nb, fi.qualname))
